@@ -1,6 +1,95 @@
-//! Kani harnesses for core/src/proof/path_proof.rs (compiled into the real crate only under cfg(kani)).
+//! K7 (path proofs): totality (C18) and scope contracts (C08) of the path-proof verifier.
 #![allow(unused_imports, dead_code)]
 use super::*;
+use crate::proof::multi_proof::verif_kani::{any_siblings, any_terminal, H};
+
+/// PathProof::verify for every proof with up to 2 siblings (any terminal, any sibling values),
+/// every full-length key and every root: a verdict, never a panic (C18); an accepted proof's path
+/// is exactly the first |siblings| bits of the key and its root is the given root.
+#[kani::proof]
+#[kani::unwind(4)]
+fn path_verify_total() {
+    let proof = PathProof { terminal: any_terminal(), siblings: any_siblings(2) };
+    let key: KeyPath = kani::any();
+    let root: Node = kani::any();
+    let r = proof.verify::<H>(key.view_bits::<Msb0>(), root);
+    if let Ok(v) = &r {
+        assert!(v.path().len() == proof.siblings.len());
+        assert!(v.root() == root);
+    }
+    kani::cover!(r.is_ok(), "accepting run reachable");
+    kani::cover!(r.is_err(), "rejecting run reachable");
+}
+
+/// confirm_value / confirm_nonexistence on a verified path of concrete length L (harnesses for
+/// L = 0, 1, 7, 9, 256; the path bits, terminal and probe are symbolic):
+///  * C18: a verdict, never a panic;
+///  * C08 (scope): Ok only for keys that start with the proven path; then confirm_value is true only
+///    for exactly the proven leaf and confirm_nonexistence is false only for the proven leaf's key.
+fn confirm_scope(len: usize) {
+    let path_key: KeyPath = kani::any();
+    let terminal: Option<LeafData> =
+        if kani::any() { Some(LeafData { key_path: kani::any(), value_hash: kani::any() }) } else { None };
+    let v = VerifiedPathProof {
+        key_path: path_key.view_bits::<Msb0>()[..len].into(),
+        terminal,
+        siblings: Vec::new(), // not read by confirm_*
+        root: kani::any(),
+    };
+    let probe: LeafData = LeafData { key_path: kani::any(), value_hash: kani::any() };
+    // independent scope oracle: the first `len` bits agree
+    let j: usize = kani::any();
+    kani::assume(j < 256);
+    let bit = |k: &KeyPath, i: usize| (k[i / 8] >> (7 - (i % 8))) & 1;
+    let cv = v.confirm_value(&probe);
+    let cn = v.confirm_nonexistence(&probe.key_path);
+    assert!(cv.is_ok() == cn.is_ok());
+    if cv.is_ok() && j < len {
+        // accepted ==> in scope (every bit below len agrees)
+        assert!(bit(&probe.key_path, j) == bit(&path_key, j));
+    }
+    if let Ok(b) = cv {
+        assert!(b == (v.terminal() == Some(&probe)));
+    }
+    if let Ok(b) = cn {
+        let same_key = match v.terminal() {
+            Some(l) => l.key_path == probe.key_path,
+            None => false,
+        };
+        assert!(b == !same_key);
+    }
+    kani::cover!(cv.is_ok(), "in-scope probe reachable");
+    kani::cover!(len == 0 || cv.is_err(), "out-of-scope probe reachable");
+}
+
+macro_rules! confirm_harness {
+    ($name:ident, $n:expr) => {
+        #[kani::proof]
+        #[kani::unwind(34)]
+        fn $name() {
+            confirm_scope($n);
+        }
+    };
+}
+confirm_harness!(path_confirm_scope_len0, 0);
+confirm_harness!(path_confirm_scope_len1, 1);
+confirm_harness!(path_confirm_scope_len7, 7);
+confirm_harness!(path_confirm_scope_len9, 9);
+confirm_harness!(path_confirm_scope_len256, 256);
+
+/// Same verifier with a key slice shorter than the sibling list / of any small length.
+#[kani::proof]
+#[kani::unwind(5)]
+fn path_verify_short_key_total() {
+    let proof = PathProof { terminal: any_terminal(), siblings: any_siblings(3) };
+    let key: KeyPath = kani::any();
+    let klen: usize = kani::any();
+    kani::assume(klen <= 4);
+    let root: Node = kani::any();
+    let r = proof.verify::<H>(&key.view_bits::<Msb0>()[..klen], root);
+    kani::cover!(r.is_ok(), "accepting run reachable");
+    kani::cover!(matches!(r, Err(PathProofVerificationError::TooManySiblings)), "too-many-siblings reachable");
+}
 
 #[cfg(test)]
 include!("/verif/.build/playback/core_path_proof.inc");
